@@ -9,7 +9,9 @@ import (
 	"sort"
 	"strings"
 	"testing"
+	"time"
 
+	"github.com/quickfixgo/quickfix/config"
 	"pgregory.net/rapid"
 
 	"verif/fixwire"
@@ -19,7 +21,7 @@ import (
 	"verif/vk"
 )
 
-const c04Rule = "closed-loop scenarios with the simulated counterparty: numbered application and admin messages sent with generated losses (also before the Logon), ResendRequests answered by PossDup replays and merged gap fills in generated arrival order (replay first / live first / mixed), chunk sizes {0,1,2,3,5,8}, both end markers, timer events in between; non-trivial = an episode with a live message stashed during recovery, or >=2 chunks, or a gap on the Logon; distinct = distinct scenario history"
+const c04Rule = "closed-loop scenarios with the simulated counterparty: numbered application and admin messages sent with generated losses (also before the Logon), ResendRequests answered by PossDup replays and merged gap fills in generated arrival order (replay first / live first / mixed), chunk sizes {0,1,2,3,5,8}, both end markers, timer events in between; plus two real-time scenarios in which the replay arrives after the kept messages have become older than MaxLatency; non-trivial = an episode with a live message stashed during recovery, or >=2 chunks, or a gap on the Logon; distinct = distinct scenario history"
 
 func c04() *stats.Collector {
 	c := stats.Get("C04")
@@ -511,4 +513,72 @@ func TestKnown_C04(t *testing.T) {
 		yn = "yes"
 	}
 	fmt.Printf("KNOWN-REPRO %s %s\n", sig, yn)
+}
+
+// TestC04_SlowRecovery: a kept message is delivered when the gap before it has been filled however
+// long that took - also when the message, fresh on arrival, is older than MaxLatency by then (the
+// replay it waited for is exempt from the staleness check, and so is what was kept meanwhile).
+// Real time: MaxLatency 2 s, the replay arrives 2.4 s after the early message. A stall of the
+// machine around the early message's arrival would make that message stale on arrival, which is a
+// different case: such a run is discarded, not judged.
+func TestC04_SlowRecovery(t *testing.T) {
+	c := c04()
+	shard, _ := vk.Shard()
+	if shard != 0 {
+		return
+	}
+	for _, chunk := range []int{0, 2} {
+		rec := &recTB{sigs: map[string]bool{}}
+		stalled := false
+		var hist string
+		vk.Guard(func() {
+			cfg := simCfg{begin: "FIX.4.4", store: "memory", hb: 30, chunk: chunk, settings: map[string]string{config.MaxLatency: "2"}}
+			scriptedC04(rec, cfg, 0, false, func(s *sim) {
+				t0 := time.Now()
+				s.peerLive("D", true)  // 2 lost
+				s.peerLive("D", false) // 3: arrives fresh, kept; ResendRequest
+				s.pumpOne()
+				s.peerLive("D", false) // 4: kept too
+				s.pumpOne()
+				if time.Since(t0) > 700*time.Millisecond {
+					stalled = true
+				}
+				time.Sleep(2400 * time.Millisecond)
+				t1 := time.Now()
+				// the counterparty answers only now (its replay carries the SendingTime of this moment)
+				s.pendingReplays = nil
+				if len(s.rrSeen) == 0 {
+					stalled = true // harness: no ResendRequest seen; nothing to judge
+					return
+				}
+				rr := s.rrSeen[len(s.rrSeen)-1]
+				for _, f := range s.p.Replay(rr[0], rr[1]) {
+					s.link = append(s.link, f)
+				}
+				for s.pumpOne() {
+				}
+				if time.Since(t1) > 1500*time.Millisecond {
+					stalled = true
+				}
+				hist = s.history()
+			})
+		})
+		c.Eval()
+		c.Class(fmt.Sprintf("slow-recovery:chunk=%d", chunk))
+		switch {
+		case stalled:
+			c.Class("slow-recovery-discarded:machine-stalled")
+		case len(rec.sigs) > 0:
+			var sigs []string
+			for k := range rec.sigs {
+				sigs = append(sigs, k)
+			}
+			sort.Strings(sigs)
+			vk.Guard(func() {
+				vk.Violation(t, c, "C04/slow-recovery/"+strings.TrimPrefix(sigs[0], "C04/"), "recovery that takes longer than MaxLatency (2 s): %v\n%s", sigs, hist)
+			})
+		default:
+			c.NonTrivial(stats.Hash("slow-recovery", chunk))
+		}
+	}
 }
